@@ -3,7 +3,7 @@
    (lexer -> token stream -> parser -> transforms), proofs in proofs/GenExamples.v. *)
 From Coq Require Import List NArith Bool Arith.
 Import ListNotations.
-From PV Require Import Regex Base LexTables NodeModel ParserBase ParserDecl ParserMain Api GenExamples ParserTables GenTables CSpec TableProofs Generator ParamProofs GenParam.
+From PV Require Import Regex Base LexTables NodeModel ParserBase ParserDecl ParserMain Api GenExamples ParserTables GenTables CSpec TableProofs Generator ParamProofs GenParam ClimbProofs GenParen GenBinop.
 
 (* parse . generate . parse = parse and second generation = first (default configuration) *)
 Theorem C07_roundtrip_decls :
@@ -82,3 +82,23 @@ Theorem C07_precedence_mirrored :
   /\ List.length gen_precedence_map = List.length tbl_BINARY_PRECEDENCE.
 Proof. exact generator_precedence_mirrors_parser. Qed.
 Print Assumptions C07_precedence_mirrored.
+
+(* visit_BinaryOp's parenthesisation, both settings of reduce_parentheses, every tree of binary operators
+   over identifiers of any depth: the generator MODEL (all of Generator.v) prints exactly the rendering of
+   the flat operand/operator sequence [flatten t] (an operand = an identifier or a parenthesised subtree),
+   and the only tree the stratified C grammar (ClimbProofs.D, the grammar the parser model is proved to
+   implement in C02_binary_expression_refines) assigns to that sequence is the tree it was printed from *)
+Theorem C07_generator_binop_text : forall (C: Type) rp (t: gt str str), ops_known t -> is_leaf t = false ->
+  forall fuel st, (2 * height t <= S fuel)%nat ->
+  visit C rp fuel (emb C t) st = GOk (render rp (flatten str str gprec rp t), st) /\
+  forall T, D (gt str str) str gprec 0 (Leaf (gt str str) str (fst (flatten str str gprec rp t))) (snd (flatten str str gprec rp t)) T
+            <-> T = skel str str gprec rp t.
+Proof. exact generator_binop_text. Qed.
+Print Assumptions C07_generator_binop_text.
+
+(* non-vacuity: a - (b - c) * d  with reduce_parentheses: the right operand keeps its parentheses, the product does not get any *)
+Example C07_binop_example :
+  let t := GBin str str (s2l "-") (GLeaf str str (s2l "a"))
+             (GBin str str (s2l "*") (GBin str str (s2l "-") (GLeaf str str (s2l "b")) (GLeaf str str (s2l "c"))) (GLeaf str str (s2l "d"))) in
+  generate nat true 10 (emb nat t) = GOk (s2l "a - (b - c) * d", Z0) /\ print true t = s2l "a - (b - c) * d".
+Proof. vm_compute. split; reflexivity. Qed.
